@@ -1059,6 +1059,12 @@ func (t *fnTrans) ret(x *ssa.Return) {
 	t.frameCheck(x, env)
 	t.lockBalance(x)
 	t.retBlocks = append(t.retBlocks, t.reach[x.Block()])
+	rp := ""
+	if x.Pos().IsValid() {
+		pp := t.eng.fset.Position(x.Pos())
+		rp = fmt.Sprintf("%s:%d", shortFile(pp.Filename), pp.Line)
+	}
+	t.retPos = append(t.retPos, rp)
 }
 
 // frameCheck: every heap changed since entry differs only at declared locations
